@@ -60,6 +60,16 @@ CHECKS = [
   'note': 'As C01.  Outside: forks deeper than 3 with real blocks (K2 carries depth), the asynchronous shell '
           '(reorg_chain prefetch/locking; see C06), heights other than those listed in K2.',
   'design_ref': 'DESIGN.md section 4, C03'},
+ {'id': 'C04',
+  'text': 'The crash point is a symbolic integer over the durable operations (each physical file write of flush_fs, '
+          'the history batch, the UTXO batch, the state put, recovery batches); the operation hit is dropped (batch/put) '
+          'or leaves arbitrary symbolic bytes (torn file write).  After restart through the real open_for_sync z3 shows, '
+          'for all garbage bytes, that the stored height is between the last completed full flush and the block in '
+          'progress, that every observable equals the reference at that height, and that resuming reaches the reference '
+          'of the whole chain.  Flush schedules enumerated; second crash during recovery in thorough.',
+  'note': 'Assumes atomic LevelDB batches/puts and that completed file writes survive process death (no power loss). '
+          'Trusted: as C01; crash counterexamples are replayed on real LevelDB/files with the same operation counter.',
+  'design_ref': 'DESIGN.md section 4, C04'},
 ]
 _TODO = 'check not built yet in this revision (planned, see DESIGN.md section 4); no claim is made'
-NOT_APPLICABLE = [{'property_id': f'C{n:02d}', 'reason': _TODO} for n in range(1, 20) if n not in (1, 2, 3, 12, 13)]
+NOT_APPLICABLE = [{'property_id': f'C{n:02d}', 'reason': _TODO} for n in range(1, 20) if n not in (1, 2, 3, 4, 12, 13)]
